@@ -35,6 +35,8 @@ class CContract:
         self.requires, self.ensures, self.raises = [], [], []
         self.raises_none = False
         self.returns = None
+        self.returns_checked = True
+        self.may_modify = set()
         n_e = 0
         for st in fnode.body:
             if not (isinstance(st, ast.Expr) and isinstance(st.value, ast.Call)):
@@ -51,6 +53,9 @@ class CContract:
             elif fn == "returns":
                 n_e += 1
                 self.returns = (name or "returns", call.args[0])
+                self.returns_checked = "assume_only" not in kw
+            elif fn == "modifies":
+                self.may_modify |= {ast.literal_eval(a) for a in call.args}
             elif fn == "raises":
                 a0 = call.args[0]
                 if isinstance(a0, ast.Constant) and a0.value is None:
@@ -223,6 +228,13 @@ def run_case(qualname, recipes, caller=None):
         return rep
     from replay import scopes
     call = scopes.CALLERS.get(qualname)
+    import copy
+    before = {}
+    for k, v in args.items():
+        try:
+            before[k] = copy.deepcopy(v)
+        except Exception:
+            pass
     try:
         if call is not None:
             result = call(args)
@@ -233,6 +245,12 @@ def run_case(qualname, recipes, caller=None):
         if isinstance(e, (KeyboardInterrupt, SystemExit)):
             raise
         outcome = ("raise", e)
+    # frame: arguments are left as they were (unless the contract says `modifies`)
+    for k, b in before.items():
+        if k in c.may_modify or k == "self":
+            continue
+        if not _unchanged(b, args[k]):
+            rep["violations"].append(f"frame[{k}] (argument modified by the call)")
     if outcome[0] == "raise":
         e = outcome[1]
         rep["outcome"] = f"raise {type(e).__name__}: {str(e)[:200]}"
@@ -261,7 +279,7 @@ def run_case(qualname, recipes, caller=None):
         if when is not None and ev(when, ns):
             rep["violations"].append(f"raises[{en}]/must-raise")
     ns["result"] = result
-    if c.returns is not None:
+    if c.returns is not None and c.returns_checked:
         name, ex = c.returns
         try:
             exp = ev(ex, ns)
@@ -277,6 +295,34 @@ def run_case(qualname, recipes, caller=None):
         except Exception as e:
             rep["violations"].append(f"{name} (contract evaluation raised {type(e).__name__}: {e})")
     return rep
+
+
+def _unchanged(a, b):
+    import numpy as np
+    import pandas as pd
+    try:
+        if isinstance(a, pd.DataFrame) or isinstance(a, pd.Series):
+            return a.equals(b)
+        if isinstance(a, np.ndarray):
+            return a.shape == b.shape and bool(((a == b) | ((a != a) & (b != b))).all()) if a.dtype.kind == "f" else (a.shape == b.shape and bool((a == b).all()))
+        if isinstance(a, (list, tuple, dict, set, str, int, float, type(None))):
+            return _deep_eq(a, b)
+    except Exception:
+        return True
+    return True
+
+
+def _deep_eq(a, b):
+    import numpy as np
+    if type(a) != type(b):
+        return False
+    if isinstance(a, (list, tuple)):
+        return len(a) == len(b) and all(_unchanged(x, y) for x, y in zip(a, b))
+    if isinstance(a, dict):
+        return a.keys() == b.keys() and all(_unchanged(a[k], b[k]) for k in a)
+    if isinstance(a, float) and a != a:
+        return b != b
+    return a == b
 
 
 def _exc_is(e, name):
